@@ -434,3 +434,23 @@ func describeBit(b Bit, name func(int32) string) string {
 	}
 	return strings.Join(parts, "^")
 }
+
+// Range returns the smallest and the largest number v can stand for, as ordered keys: for a signed value the
+// sign bit is flipped (bias), so that keys compare like the numbers. Non-constant bits (including ⊤) are free.
+func Range(v Val) (lo, hi uint64) {
+	w := v.W()
+	for i := 0; i < w && i < 64; i++ {
+		one := uint64(1) << uint(i)
+		c, ok := v.Bits[i].IsConst()
+		isSign := v.Signed && i == w-1
+		switch {
+		case ok && (c != isSign): // contributes a 1 to the key
+			lo |= one
+			hi |= one
+		case ok:
+		default:
+			hi |= one
+		}
+	}
+	return lo, hi
+}
